@@ -652,13 +652,34 @@ def toyPow (x y : XF) : XF :=
   if x = nan ∨ y = nan ∨ XF.lt x (fin 0) = true ∨ (x = fin 0 ∧ XF.lt y (fin 0) = true) then nan
   else if XF.le (fin 1) y = true then x else fin 1
 
+/-- a crude exponential with the lower bounds of the real one: `1` for `0 ≤ x ≤ 41`, overflow beyond, and
+`2^-k` with `k = ⌈-x / 0.693⌉` for `x < 0` as long as `2^-k` is a number of the format, `0` below -/
+def toyExp : XF → XF
+  | fin x =>
+    if 41 < x then pinf else if 0 ≤ x then fin 1
+    else if (⌈-x / ln2lo⌉).toNat ≤ 60 then fin (1 / 2 ^ (⌈-x / ln2lo⌉).toNat) else fin 0
+  | pinf => pinf
+  | ninf => fin 0
+  | nan => nan
+
+/-- a crude square root (one Heron step from 1, rounded): no theorem uses a law of `sqrt` -/
+def toySqrt : XF → XF
+  | fin q => if q < 0 then nan else toyRnd ((q + 1) / 2)
+  | pinf => pinf
+  | _ => nan
+
 def toy : Arith where
   omega := 2 ^ 60
   eps := 11529 / 2 ^ 60
   top := 1 - 1 / 2 ^ 53
+  tiny := 1 / 2 ^ 60
+  kmax := 60
+  expmax := 41
   rep := toyRep
   rnd := toyRnd
   pow := toyPow
+  exp := toyExp
+  sqrt := toySqrt
 
 theorem toyRnd_mono (q q' : Rat) (h : q ≤ q') : XF.le (toyRnd q) (toyRnd q') = true := by
   unfold toyRnd
